@@ -128,6 +128,35 @@ theorem getAfterConsent_ok_signed (cfg : Cfg) (s : Store) (req : GetReq) (flags 
   · obtain ⟨h1, _, _, h4, h5⟩ := signPhase_ok _ _ _ _ _ _ h
     exact ⟨h4, h5, ⟨_, h1⟩⟩
 
+/-- a successful assertion was made with the first credential of the lookup -/
+theorem getAssertion_first_of_lookup (cfg : Cfg) (u : UvCfg) (s : Store) (req : GetReq) (r : GetResp)
+    (h : (getAssertion cfg u s req).result = .ok r) :
+    ∃ p rest, (s.find (allowIds req) req.rpId).1 = .ok (p :: rest) ∧ r.credId = p.credId := by
+  unfold getAssertion at h
+  dsimp only at h
+  split at h
+  · cases h
+  · split at h
+    · cases h
+    · split at h
+      · cases h
+      · split at h
+        · cases h
+        · rename_i cred hm
+          simp only [Outcome.prepend] at h
+          obtain ⟨_, hid, _, _⟩ := getAfterConsent_ok _ _ _ _ _ _ h
+          unfold firstCred at hm
+          cases hf : (s.find (allowIds req) req.rpId).1 with
+          | error e => rw [hf] at hm; cases hm
+          | ok l =>
+            rw [hf] at hm
+            cases l with
+            | nil => cases hm
+            | cons p rest =>
+              simp only [Except.ok.injEq] at hm
+              subst hm
+              exact ⟨p, rest, rfl, hid⟩
+
 /-- saving a passkey with a fresh id into a map-like store appends it and keeps everything else -/
 theorem saveRaw_fresh (kind : StoreKind) (items : List Passkey) (p : Passkey) (hk : kind ≠ .singleSlot)
     (hfresh : ∀ q ∈ items, q.credId ≠ p.credId) : saveRaw kind items p = items ++ [p] := by
